@@ -22,6 +22,14 @@ def _mods():
     return ebb_serial, serial
 
 
+class Endless(BaseException):
+    """raised by the scripted port after far more reads than any request may make: the primitive under test does not return"""
+
+
+MAX_READS = 2000
+ENDLESS = [0]             # requests that never returned so far in this run (after a few, the remaining histories are not run: the tree is broken)
+
+
 class LegacyPort(ebbfake.PortExtras):
     """Scripted legacy board (mirrors LegacyOps!Enq / ReadQ); logs every port operation."""
 
@@ -89,6 +97,8 @@ class LegacyPort(ebbfake.PortExtras):
     def readline(self):
         p = self.plan
         self.reads += 1
+        if self.reads > MAX_READS:
+            raise Endless()
         if (p["fault"] == "r1raise" and self.reads == 1) or (p["fault"] == "r2raise" and self.reads == 2) \
                 or (p["fault"] == "rNraise" and self.data_out and not self.raised) \
                 or (p["fault"] == "rkraise" and self.reads == p.get("rk", 1)):
@@ -137,14 +147,14 @@ def run_script(mods, script, tid):
                     "rk": plan.get("rk", 0)})
         port.arm(plan, n, name)
         f = getattr(ebb_serial, fn)
-        extra = (False,) if plan.get("quiet") else ()             # verbose=False: the same behaviour, logged at a lower level
+        extra = {"verbose": False} if plan.get("quiet") else {}             # verbose=False: the same behaviour, logged at a lower level
         try:
             if kind == "noport":
-                val = f(None, text, *extra)
+                val = f(None, text, **extra)
             elif kind == "notext":
-                val = f(port, None, *extra)
+                val = f(port, None, **extra)
             else:
-                val = f(port, text, *extra)
+                val = f(port, text, **extra)
             if val is None:
                 cls, tok = "none", ["empty"]
             elif isinstance(val, str):
@@ -156,6 +166,10 @@ def run_script(mods, script, tid):
             else:
                 cls, tok = "other", ["other", 0]
             log.append({"ev": "ret", "cls": cls, "tok": tok, "val": repr(val)[:60]})
+        except Endless:
+            ENDLESS[0] += 1
+            log.append({"ev": "ret", "cls": "endless", "tok": ["other", 0], "val": "no return after %d reads" % MAX_READS})
+            break
         except Exception as ex:  # pylint: disable=broad-except
             log.append({"ev": "ret", "cls": "raised", "tok": ["other", 0], "val": type(ex).__name__ + ": " + str(ex)[:60]})
     for e in log:
@@ -201,7 +215,12 @@ def input_class(script, ei_log, log):
 
 def judge_batch(ctx, mode, scripts, name):
     mods = _mods()
-    logs = [run_script(mods, s, tid) for tid, s in enumerate(scripts)]
+    logs = []
+    for tid, s in enumerate(scripts):
+        if ENDLESS[0] >= 12:
+            break
+        logs.append(run_script(mods, s, tid))
+    scripts = scripts[:len(logs)]
     fails = validate(ctx, name, logs)
     nbad = 0
     for tid, (s, log, f) in enumerate(zip(scripts, logs, fails)):
@@ -237,7 +256,7 @@ def run(ctx):
     os.remove(dump + ".dump")
     scripts.sort(key=lambda s: json.dumps(s, sort_keys=True))
     logs, nbad = judge_batch(ctx, "G", scripts, "g")
-    ctx.sample({"mode": "G", "script": scripts[len(scripts) // 3], "log_head": logs[len(scripts) // 3][:6]})
+    ctx.sample({"mode": "G", "script": scripts[len(logs) // 3], "log_head": logs[len(logs) // 3][:6]})
     ctx.stage("G", kind="spec->code->spec", scripts=len(scripts), rejected=nbad, events=sum(len(l) for l in logs))
     ctx.exhaustive = True
     # V: random longer histories, arbitrary delays and faults
@@ -268,7 +287,8 @@ def run(ctx):
                           "blank": fault == "none" and kind in ("qok", "qnook") and rng.random() < 0.12})
         vs.append(s)
     logs, nbad = judge_batch(ctx, "V", vs, "v")
-    ctx.sample({"mode": "V", "script": vs[0], "log_head": logs[0][:8]})
+    if logs:
+        ctx.sample({"mode": "V", "script": vs[0], "log_head": logs[0][:8]})
     ctx.stage("V", kind="code->spec", histories=nv, rejected=nbad, events=sum(len(l) for l in logs))
     import legacy_extra
     legacy_extra.run_stage(ctx)          # growth beyond the list: testPort handshake and query_enable_motors decode (observations only)
